@@ -206,6 +206,43 @@ def r04_3(chk, facts):
         if ok: chk.ok('R04.3', site, {'function': fn['q']})
         else: chk.fail('R04.3', site, fn['file'], fn['l'], 'end_fraction_value does not emit a bigdec string under lossless_number_', None, fn['q'])
 
+def r04_4(chk, facts):
+    """Multi-word addition/subtraction of basic_bigint: every wrapping word operation feeds the carry/borrow."""
+    chk.rule('R04.4', 'bigint carry capture: in the word loops of basic_bigint::operator+= and operator-=, every `x = a + b` (resp. `a - b`) on words is '
+                      'followed in the same iteration by the wrap test `x < a|b` (resp. `x > a`) so that no carry or borrow is lost', floor=6)
+    fns = [f for f in facts.functions if f['file'].endswith('utility/bigint.hpp') and f['n'] in ('operator+=', 'operator-=') and f.get('body') is not None and not f.get('dep')
+           and 'basic_bigint' in (f.get('cls') or '') and f.get('params') and 'basic_bigint' in F.tname(f, f['params'][0]['t'])]
+    chk.require(len(fns) >= 2, 'basic_bigint::operator+=/-=(const basic_bigint&) not found')
+    n = 0
+    for fn in U.one_per_inst(fns):
+        chk.analysed(fn)
+        want_op = '+' if fn['n'] == 'operator+=' else '-'
+        k = 0
+        for lp in A.walk_no_lambda(fn['body']):
+            if lp.get('k') != 'ForStmt': continue
+            body = lp.get('body')
+            for x in A.walk_no_lambda(body):
+                if not (x.get('k') == 'BinaryOperator' and x.get('op') == '='): continue
+                r = A.strip(x.get('rhs'), casts=True)
+                if r is None or r.get('k') != 'BinaryOperator' or r.get('op') != want_op: continue
+                lt = A.text(A.strip(x.get('lhs'), casts=True)); a = A.text(A.strip(r.get('lhs'), casts=True)); b = A.text(A.strip(r.get('rhs'), casts=True))
+                k += 1; n += 1
+                ok = False
+                for y in A.walk_no_lambda(body):
+                    c = None
+                    if y.get('k') == 'BinaryOperator' and y.get('op') in ('<', '>'): c = (y['op'], A.text(A.strip(y.get('lhs'), casts=True)), A.text(A.strip(y.get('rhs'), casts=True)))
+                    if not c or y.get('l', 0) < x.get('l', 0): continue
+                    op, cl, cr = c
+                    if cl != lt: op, cl, cr = ('<' if op == '>' else '>'), cr, cl
+                    if cl != lt: continue
+                    if want_op == '+' and op == '<' and cr in (a, b): ok = True
+                    if want_op == '-' and op == '>' and cr == a: ok = True
+                site = U.site(fn, 'word %s #%d' % ('addition' if want_op == '+' else 'subtraction', k))
+                if ok: chk.ok('R04.4', site, {'line': x.get('l'), 'operation': '%s = %s %s %s' % (lt, a, want_op, b)})
+                else: chk.fail('R04.4', site, fn['file'], x.get('l'), '%s: `%s = %s %s %s` can wrap and no test `%s %s %s` follows in the iteration: the %s out of this word is lost' % (
+                    fn['n'], lt, a, want_op, b, lt, '<' if want_op == '+' else '>', a, 'carry' if want_op == '+' else 'borrow'), None, fn['q'])
+    chk.require(n >= 6, 'R04.4: only %d word operations found in the bigint add/subtract loops' % n)
+
 def run(chk, tier, only_rule=None):
     chk.explanation = EXPLANATION
     chk.not_decided = NOT_DECIDED
@@ -214,4 +251,5 @@ def run(chk, tier, only_rule=None):
     r04_1(chk, facts)
     r04_2(chk, facts)
     r04_3(chk, facts)
+    r04_4(chk, facts)
     c05.r05_1(chk, facts)
